@@ -1,9 +1,13 @@
-(** Hand-written model of the one call the distribution families delegate to torch without leaspy code in between:
-    [torch.distributions.Bernoulli(probs=p).log_prob(y)] = [-binary_cross_entropy_with_logits(logit p, y)]
-    = [y ln p + (1-y) ln (1-p)] for [p] strictly inside ]0,1[ (torch clamps [p] to [eps, 1-eps], eps = machine epsilon of
-    the dtype, before taking the logit; the clamp is outside this model and outside the T3 sampling range).
-    NOT derived from the code: tied to the running torch by the T3 lemmas of C08 only. Definitions only. *)
+(** Hand-written model of the ONE torch kernel the Bernoulli family reaches without leaspy or torch *python* code in between.
+    [BernoulliFamily._nll] (inherited from [StatelessDistributionFamilyFromTorchDistribution._nll]) calls
+    [torch.distributions.Bernoulli(p).log_prob(y)]; that python code IS traced on every run (harness/props/c08.py):
+    clamp of [p] to [eps, 1 - eps] (eps = machine epsilon of the dtype), logit [ln pc - log1p(-pc)], then
+    [-binary_cross_entropy_with_logits(logit, y, reduction="none")].  Only the last call is a compiled kernel: it is modelled here
+    in the numerically stable form ATen evaluates, [(1 - y) x + ln (1 + exp(-x))]; DensityProofs.v proves that this is the documented
+    loss  -[y ln sigmoid(x) + (1 - y) ln (1 - sigmoid(x))]  (torch.nn.BCEWithLogitsLoss).
+    NOT derived from the code: tied to the running torch by the T3 lemmas of C08 (float32 and float64, interior and saturated
+    probabilities).  Definitions only. *)
 From Coq Require Import Reals.
 Local Open Scope R_scope.
 
-Definition torch_bernoulli_log_prob (p y : R) : R := y * ln p + (1 - y) * ln (1 - p).
+Definition torch_bce_with_logits (x y : R) : R := (1 - y) * x + ln (1 + exp (- x)).
